@@ -42,9 +42,9 @@ CHECKS = {
    technique='Lean 4 proof (decide over a source-generated site table + induction over failure sequences) with fault-injection correspondence'),
  'C04': dict(
    category='proof',
-   text='(T) The stopping test, the two result dictionaries and the symmetrisation walk of cpl are regenerated from cvxprog.py into Lean on every '
+   text='(T) The stopping test, the chain that assigns the relative gap, the two result dictionaries and the symmetrisation walk of cpl are regenerated from cvxprog.py into Lean on every '
         'run; theorems for all values of the statistics and tolerances: optimal is returned only when both residuals are within feastol and '
-        'the absolute or defined relative gap is within tolerance and the iteration limit is not reached; result keys come from the right '
+        'the absolute or defined relative gap is within tolerance and the iteration limit is not reached; the relative gap is gap/-pcost for pcost < 0, gap/dcost for dcost > 0, undefined otherwise; result keys come from the right '
         'slices; all s blocks of sl, zl are symmetrised with the correct offsets. (V) A Lean rational checker of the documented KKT conditions '
         'for convex quadratic F (f and Df re-evaluated exactly, normalisers recomputed from the documented starting point) judges what cpl and cp '
         'really return on planted QCQPs; its acceptance is proved to be exactly the documented list of conditions. Theorems for every convex F: the '
